@@ -225,6 +225,12 @@ fn values_of(text: &str) -> Value {
             "spaces": m.spaces.iter().map(|s| json!({"name": s.name, "z": n(s.z), "height": n(s.height), "inside_tenv": s.inside_tenv, "multiplier": n(s.multiplier),
                 "kind": format!("{:?}", s.kind), "n_v": s.n_v.map(n), "illuminance": s.illuminance.map(n)})).collect::<Vec<_>>(),
             "tbs": m.thermal_bridges.iter().map(|t| json!({"name": t.name, "kind": format!("{:?}", t.kind), "l": n(t.l), "psi": n(t.psi)})).collect::<Vec<_>>(),
+            "loads": m.loads.iter().map(|l| json!({"name": l.name, "area_per_person": n(l.area_per_person), "people_sensible": n(l.people_sensible),
+                "people_latent": n(l.people_latent), "equipment": n(l.equipment), "lighting": n(l.lighting)})).collect::<Vec<_>>(),
+            "wallcons": m.cons.wallcons.iter().map(|c| json!({"name": c.name, "thickness": c.layers.iter().map(|l| n(l.e)).collect::<Vec<_>>(), "absorptance": n(c.absorptance)})).collect::<Vec<_>>(),
+            "wincons": m.cons.wincons.iter().map(|c| json!({"name": c.name, "f_f": n(c.f_f), "delta_u": n(c.delta_u), "g_glshwi": c.g_glshwi.map(n), "c_100": n(c.c_100)})).collect::<Vec<_>>(),
+            "glasses": m.cons.glasses.iter().map(|g| json!({"name": g.name, "u_value": n(g.u_value), "g_gln": n(g.g_gln)})).collect::<Vec<_>>(),
+            "frames": m.cons.frames.iter().map(|f| json!({"name": f.name, "u_value": n(f.u_value), "absorptivity": n(f.absorptivity)})).collect::<Vec<_>>(),
             "windows": m.windows.iter().map(|w| json!({"name": w.name, "x": w.geometry.position.map(|p| n(p.x)), "y": w.geometry.position.map(|p| n(p.y)),
                 "width": n(w.geometry.width), "height": n(w.geometry.height), "setback": n(w.geometry.setback)})).collect::<Vec<_>>(),
         }))?)
